@@ -72,6 +72,7 @@ M = [
     ("C12-target-zero-width", "C12", "cnvlib/target.py", "tgt_arr = tgt_arr[tgt_arr.start != tgt_arr.end]", "tgt_arr = tgt_arr[tgt_arr.start < tgt_arr.end - 1]"),
     ("C09-chromosome-dtype-inferred", "C09", "cnvlib/coverage.py", 'dtype={"chromosome": str, "gene": str},', 'dtype={"gene": str},'),
     ("C09-names-default-na", "C09", "cnvlib/coverage.py", '        keep_default_na=False,\n        na_values=[""],\n', ''),
+    ("C13-blank-line-starts-run", "C13", "cnvlib/access.py", '                if not line:\n                    # A blank line holds no bases; it must not start a run\n                    continue\n', ''),
     ("C12-annotate-by-label", "C12", "cnvlib/target.py", 'annotation.into_ranges(tgt_arr, "gene", "-").values', 'annotation.into_ranges(tgt_arr, "gene", "-")'),
     # ---- C13
     ("C13-join-le", "C13", "cnvlib/access.py", "if gap < min_gap_size:", "if gap <= min_gap_size:"),
